@@ -58,7 +58,7 @@ func c09Setup(prm c09Params) func(c *fw.Ctx, name string) explore.Setup {
 			if prm.State == "writer" || prm.State == "writer-big" {
 				st.p.Window = 64
 			}
-			if prm.Adv == "neverReads" || prm.Adv == "slowThenData" {
+			if prm.Adv == "neverReads" || prm.Adv == "slowThenData" || prm.Adv == "dupPongs" {
 				st.p.Window = 1 // the peer's receive window is closed
 			}
 			w.GoHarness("main", true, func() {
@@ -156,6 +156,11 @@ func c09Setup(prm c09Params) func(c *fw.Ctx, name string) explore.Setup {
 					case "dataThenSilent":
 						st.p.Send(data100)
 					case "neverReads":
+					case "dupPongs":
+						// the peer does not read (the connection's Ping is stuck in the transport) and
+						// sends, twice, a Pong carrying the payload the connection's first Ping has
+						pl := []byte("1")
+						st.p.Send(append(frame.Ctl(frame.OpPong, !k.Client, pl).Encode(nil), frame.Ctl(frame.OpPong, !k.Client, pl).Encode(nil)...))
 					case "slowThenData":
 						// reads nothing for 4 s, sends one complete message at 8 s, then silence
 						vtime.Sleep(4 * time.Second)
@@ -211,6 +216,15 @@ func c09Setup(prm c09Params) func(c *fw.Ctx, name string) explore.Setup {
 					})
 				case "reader-once":
 					blocked("reader", func() { conn.Read(bg) })
+				case "ping+reader":
+					blocked("pinger", func() { conn.Ping(bg) })
+					blocked("reader", func() {
+						for {
+							if _, _, err := conn.Read(bg); err != nil {
+								return
+							}
+						}
+					})
 				case "writer":
 					blocked("writer", func() { conn.Write(bg, websocket.MessageBinary, fill(0xA7, 200)) })
 				case "writer-big":
@@ -241,6 +255,11 @@ func c09Setup(prm c09Params) func(c *fw.Ctx, name string) explore.Setup {
 					st.t0 = w.Now
 					if prm.Action == "Close" {
 						st.actErr = conn.Close(websocket.StatusNormalClosure, "")
+					} else if prm.Action == "CloseBadArgs" {
+						// arguments that cannot be sent: Close reports an error, and it still closes
+						st.actErr = conn.Close(websocket.StatusNormalClosure, strings.Repeat("r", 124))
+					} else if prm.Action == "CloseBadCode" {
+						st.actErr = conn.Close(websocket.StatusCode(1006), "")
 					} else {
 						st.actErr = conn.CloseNow()
 					}
@@ -279,7 +298,7 @@ func c09Oracle(c *fw.Ctx, w *vs.World, name string, prm c09Params, st *c09State)
 		return
 	}
 	dt := st.t1 - st.t0
-	if prm.Action == "Close" && dt > 10*c09Sec+c09Sec/2 {
+	if strings.HasPrefix(prm.Action, "Close") && prm.Action != "CloseNow" && dt > 10*c09Sec+c09Sec/2 {
 		violate(c, w, name, "C09/Close-exceeds-bound/"+locus, fmt.Sprintf("Close returned after %v of virtual time (documented bound about 5s+5s): %v", time.Duration(dt), st.actErr))
 		return
 	}
@@ -336,6 +355,19 @@ func c09Scenarios(tier string) []scenario {
 		for _, s := range []string{"idle", "reader", "reader-once", "closeread"} {
 			prm := c09Params{K: k, Adv: "slowThenData", State: s, Action: "Close"}
 			scs = append(scs, scenario{Name: prm.name(), Cfg: cfg, Setup: c09Setup(prm)})
+		}
+		for _, act := range []string{"Close", "CloseNow"} {
+			prm := c09Params{K: k, Adv: "dupPongs", State: "ping+reader", Action: act}
+			scs = append(scs, scenario{Name: prm.name(), Cfg: cfg, Setup: c09Setup(prm)})
+		}
+		// Close with arguments that cannot be sent (reason of 124 bytes, code 1006)
+		for _, act := range []string{"CloseBadArgs", "CloseBadCode"} {
+			for _, s := range []string{"idle", "reader", "closeread", "writer"} {
+				for _, a := range []string{"silent", "echo4900"} {
+					prm := c09Params{K: k, Adv: a, State: s, Action: act}
+					scs = append(scs, scenario{Name: prm.name(), Cfg: cfg, Setup: c09Setup(prm)})
+				}
+			}
 		}
 	}
 	for _, k := range []connCfg{{Client: false}, {Client: true}} {
